@@ -180,6 +180,8 @@ def normalise(cm, version, side):
         if a[0] == "val" and a[3] == "head" and a[1] in ("Tank", "Junction") and a[2] in cm["nodes"]:
             a[3] = "level" if a[1] == "Tank" else "pressure"
             a[5] = a[5] - cm["nodes"][a[2]]["elevation"]
+        elif a[0] == "val" and a[1] == "Tank" and a[3] == "pressure":
+            a[3] = "level"  # Tank.pressure is head - elevation, the level (CtlCond.norm: the attribute of the node kind)
     for r in cm["rules"]:
         r["cond"] = of_groups(cnf(r["cond"]))  # InpNorm.ofGroups (cnf c)
     for (g, k) in EXCLUDED_OPTIONS:
@@ -1551,6 +1553,12 @@ def directed_specs():
                                                             rule(["clock", ">", 0], "rc4"), rule(["time", ">=", 86400 + 3661], "rc5", 5)]))
     mk("single-demand-category", lambda sp: sp["junctions"][0].update(demands=[[0.01, None, "dom"]]))
     mk("tank-head-control", lambda sp: sp["controls"].append(ctl(["val", "node", "T1", "head", ">", 24.0])))
+    # every attribute a simple control can name: the threshold must come back as the SAME condition in the section's datum
+    # (junction: pressure = head - elevation; tank: level = head - elevation = pressure), in every unit system
+    mk("control-attributes", lambda sp: sp["controls"].extend([
+        ctl(["val", "node", "J1", "pressure", ">", 35.5], name="control 1"), ctl(["val", "node", "J1", "head", "<", 45.5], name="control 2"),
+        ctl(["val", "node", "T1", "level", ">", 4.25], name="control 3"), ctl(["val", "node", "T1", "head", "<", 22.5], name="control 4"),
+        ctl(["val", "node", "T1", "pressure", ">", 3.5], name="control 5")]))
     mk("mass-source", lambda sp: (sp["sources"].append({"name": "INP1", "node": "J1", "type": "MASS", "strength": 0.008296, "pat": None}),
                                   sp["options"].update(quality={"parameter": "CHEMICAL", "chemical_name": "Cl", "inpfile_units": "mg/L"})))
     mk("default-pattern-1", lambda sp: sp["patterns"].append({"name": "1", "mult": [0.5, 2.0]}))
@@ -1790,7 +1798,7 @@ class C12(Check):
             yield ("directed:" + label, sp, None, None)
         n = 40 if ctx.quick else 150
         for i in range(n):
-            yield ("gen%d" % i, G.gen_spec(ctx.rng, size=1 if i % 3 else 2, inp_only=True, share_curves=True), None, None)
+            yield ("gen%d" % i, G.gen_spec(ctx.rng, size=1 if i % 3 else 2, inp_only=True, share_curves=True, control_attrs=True), None, None)
 
     def correspondence(self, ctx):
         wntr = vlib.import_wntr()
@@ -1818,6 +1826,8 @@ class C12(Check):
                     nontriv = bool(sp["controls"]) or bool(sp["sources"]) or bool(sp["curves"]) or any(len(j["demands"] or []) > 1 for j in sp["junctions"])
                     if u0:
                         units = [u0]
+                    elif label == "directed:control-attributes":
+                        units = list(UNITS)
                     elif label.startswith("directed"):
                         units = [UNITS[(ctx.seed + ci) % 10], UNITS[(ctx.seed + ci + 5) % 10]]
                     else:
@@ -2192,7 +2202,7 @@ class C12(Check):
         try:
             with warnings.catch_warnings():
                 warnings.simplefilter("ignore")
-                specs = directed_specs() + [("wide%d" % i, G.gen_spec(ctx.rng, size=2, inp_only=True, share_curves=True)) for i in range(6 if ctx.quick else 25)]
+                specs = directed_specs() + [("wide%d" % i, G.gen_spec(ctx.rng, size=2, inp_only=True, share_curves=True, control_attrs=True)) for i in range(6 if ctx.quick else 25)]
                 for label, sp in specs:
                     wn = G.realise(wntr, sp)
                     for u in UNITS:
